@@ -8,6 +8,7 @@ open IrVerif.Clone
 #print axioms C13_closed_outer
 #print axioms C13_raises_iff_inputs
 #print axioms C13_clone_pure
+#print axioms C13_failed_clone_no_residue
 #print axioms C13_clone_pure_model
 #print axioms C13_frame
 #print axioms C13_frame_weak
